@@ -80,9 +80,16 @@ inductive CErr
 inductive Kind | narrow | utf8 | utf16 | wide
   deriving DecidableEq, Repr, Inhabited
 
-/-- `stringToULLbounded(s, pos, base, minlen, maxlen)`: value and number of characters consumed -/
-def stringToULLbounded (rest : Str) (base : Nat) (minlen : Nat) (maxlen : Option Nat) : Except CErr (Nat × Nat) :=
+/-- `stringToULLbounded(s, pos, base, minlen, maxlen)`: value and number of characters consumed.
+    Since bed3bd1 only the leading digits of the base are handed to strtoull; `pre = true` is the function before that
+    commit (the whole rest of the literal went to strtoull, which skips white space, a sign and a `0x` prefix). -/
+def stringToULLbounded (rest : Str) (base : Nat) (minlen : Nat) (maxlen : Option Nat) (pre : Bool := false) :
+    Except CErr (Nat × Nat) :=
   let sub := match maxlen with | some m => rest.take m | none => rest
+  let sub := if pre then sub
+    else if base = 8 then sub.takeWhile isOctDigit
+    else if base = 16 then sub.takeWhile isXDigit
+    else sub
   let r := strtoull base sub
   if r.consumed < minlen then .error .expectedDigit else .ok (r.value, r.consumed)
 
@@ -110,7 +117,7 @@ def simpleEscape (e : Char) : Option Nat :=
 
 /-- one iteration of the `while (pos + 1 < str.size())` body after the two leading checks:
     returns the value of the element and the remaining string -/
-def element (k : Kind) (rest : Str) : Except CErr (Nat × Str) :=
+def element (k : Kind) (rest : Str) (pre : Bool := false) : Except CErr (Nat × Str) :=
   match rest with
   | [] => .error .fuel
   | c :: r1 =>
@@ -124,16 +131,16 @@ def element (k : Kind) (rest : Str) : Except CErr (Nat × Str) :=
           | some v => .ok (v, r2)
           | none =>
             if isOctDigit escape then
-              match stringToULLbounded r1 8 1 (some 3) with
+              match stringToULLbounded r1 8 1 (some 3) pre with
               | .ok (v, n) => .ok (v, r1.drop n)
               | .error e => .error e
             else if escape == 'x' then
-              match stringToULLbounded r2 16 1 none with
+              match stringToULLbounded r2 16 1 none pre with
               | .ok (v, n) => .ok (v, r2.drop n)
               | .error e => .error e
             else if escape == 'u' || escape == 'U' then
               let nd := if escape == 'u' then 4 else 8
-              match stringToULLbounded r2 16 nd (some nd) with
+              match stringToULLbounded r2 16 nd (some nd) pre with
               | .ok (v, n) =>
                 if ((k == .narrow || k == .utf8) && v > 0x7f) || (k == .utf16 && v > 0xffff) || v > 0x10ffff then .error .codePointTooLarge
                 else if v ≥ 0xd800 && v ≤ 0xdfff then .error .surrogate
@@ -157,7 +164,7 @@ def element (k : Kind) (rest : Str) : Except CErr (Nat × Str) :=
       else .ok (value, r1)
 
 /-- the main loop; `rest = str.drop pos`.  Every iteration consumes at least one character, `fuel` ≥ length. -/
-def loop (k : Kind) : Nat → Str → Nat → Nat → Except CErr (Nat × Nat × Str)
+def loop (k : Kind) (pre : Bool := false) : Nat → Str → Nat → Nat → Except CErr (Nat × Nat × Str)
   | 0, _, _, _ => .error .fuel
   | fuel + 1, rest, multivalue, nbytes =>
     if rest.length < 2 then .ok (multivalue, nbytes, rest)
@@ -168,15 +175,15 @@ def loop (k : Kind) : Nat → Str → Nat → Nat → Except CErr (Nat × Nat ×
         if c == '\'' || c == '\n' then .error .rawQuote
         else if nbytes ≥ 1 && k != .narrow then .error .multiWide
         else
-          match element k rest with
+          match element k rest pre with
           | .error e => .error e
           | .ok (value, rest') =>
             if ((k == .narrow || k == .utf8) && value > 255) || (k == .utf16 && value / 2 ^ 16 ≠ 0) || value / 2 ^ 32 ≠ 0 then
               .error .numericTooLarge
-            else loop k fuel rest' ((multivalue * 256 % 2 ^ 64) ||| value) (nbytes + 1)
+            else loop k pre fuel rest' ((multivalue * 256 % 2 ^ 64) ||| value) (nbytes + 1)
 
 /-- `simplecpp::characterLiteralToLL(str)` -/
-def characterLiteralToLL (s : Str) : Except CErr Int :=
+def characterLiteralToLL (s : Str) (pre : Bool := false) : Except CErr Int :=
   let start : Option (Kind × Str) :=
     match s with
     | '\'' :: r => some (.narrow, r)
@@ -188,7 +195,7 @@ def characterLiteralToLL (s : Str) : Except CErr Int :=
   match start with
   | none => .error .expectedLiteral
   | some (k, body) =>
-    match loop k (body.length + 1) body 0 0 with
+    match loop k pre (body.length + 1) body 0 0 with
     | .error e => .error e
     | .ok (multivalue, nbytes, rest) =>
       if rest != ['\''] then .error .missingQuote
@@ -270,7 +277,7 @@ def adjOk : List CElem → Bool
   | _ :: rest => adjOk rest
   | [] => true
 
-/-- the spelling `\x0` `x` hex-digit, e.g. `'\x0x4'` (three c-chars for a compiler) -/
+/-- the spelling `\x0` `x` hex-digit, e.g. `'\x0x4'` (three c-chars for a compiler) — the inputs the pre-bed3bd1 function got wrong -/
 def hex0x : List CElem → Bool
   | .hex ds :: .plain x :: .plain h :: rest =>
     (ds == ['0'] && (x == 'x' || x == 'X') && isXDigit h) || hex0x (.plain x :: .plain h :: rest)
